@@ -270,7 +270,27 @@ impl SplineCase {
                 0 => BcSel::NotAKnot,
                 1 => BcSel::Natural,
                 2 => BcSel::Clamped,
-                _ => BcSel::Individual((0..lanes).map(|_| lane_sel::<T>(src, scale_e, h_typ)).collect()),
+                _ => {
+                    let mut v: Vec<LaneSel> = (0..lanes).map(|_| lane_sel::<T>(src, scale_e, h_typ)).collect();
+                    // equalities between the lanes' selections: all lanes carry the very same row, or blocks of equal rows
+                    if lanes >= 2 {
+                        match src.below(8) {
+                            0 => {
+                                let f = v[0].clone();
+                                v.iter_mut().for_each(|s| *s = f.clone());
+                            }
+                            1 => {
+                                for l in 1..lanes {
+                                    if l % 2 == 1 {
+                                        v[l] = v[l - 1].clone();
+                                    }
+                                }
+                            }
+                            _ => {}
+                        }
+                    }
+                    BcSel::Individual(v)
+                }
             }
         };
         if periodic {
@@ -317,7 +337,14 @@ impl SplineCase {
                 0 => BcSel::NotAKnot,
                 1 => BcSel::Natural,
                 2 => BcSel::Clamped,
-                _ => BcSel::Individual((0..lanes).map(|_| lane_sel::<T>(&mut s2, scale_e, h_typ)).collect()),
+                _ => {
+                    let mut v: Vec<LaneSel> = (0..lanes).map(|_| lane_sel::<T>(&mut s2, scale_e, h_typ)).collect();
+                    if s2.chance(1, 4) {
+                        let f = v[0].clone();
+                        v.iter_mut().for_each(|s| *s = f.clone());
+                    }
+                    BcSel::Individual(v)
+                }
             }
         };
         SplineCase { n, axis_class, x, trailing, lanes, data, bc, scale_e, dd, lay, xlay }
@@ -336,7 +363,16 @@ impl SplineCase {
     pub fn build<T: Flt>(&self, extrapolate: bool) -> Result<Box<dyn I1<T>>, Fail> {
         let xo = if self.axis_class == AxisClass::Index { None } else { Some(crate::layout::realise1(arr_1::<T>(&self.x), self.xlay, T::of(-9.0e9))) };
         let strat = Strat1::Spline { extrapolate, bc: self.bc.to_bc::<T>(&self.trailing) };
-        match build1::<T>(xo, crate::layout::realise(arr_d::<T>(&self.shape(), &self.data), self.lay, T::of(-3.5e5)), self.dd, &strat) {
+        // equal lanes: in half of the cases the data is a broadcast (stride 0) view of its first lane
+        let built = match crate::gen1d::broadcastable(&self.data, self.n, self.lanes) {
+            Some(col) if crate::common::splitmix(col[0].to_bits()) & 1 == 0 => {
+                let mut bshape = vec![self.n];
+                bshape.extend(self.trailing.iter().map(|_| 1));
+                crate::adapt::build1_bcast::<T>(xo, arr_d::<T>(&bshape, &col), &self.shape(), self.dd, &strat)
+            }
+            _ => build1::<T>(xo, crate::layout::realise(arr_d::<T>(&self.shape(), &self.data), self.lay, T::of(-3.5e5)), self.dd, &strat),
+        };
+        match built {
             Some(Ok(i)) => Ok(i),
             Some(Err(e)) => Err(Fail::new("build-failed", format!("valid spline input rejected: {e}"))),
             None => Err(Fail::new("oracle-bug", "spline case not expressible in its dimension type")),
@@ -346,6 +382,11 @@ impl SplineCase {
     pub fn classes(&self, out: &mut crate::common::Obs) {
         out.class(format!("axis:{}", self.axis_class.name()));
         out.class(format!("bc:{}", self.bc.name()));
+        if let BcSel::Individual(v) = &self.bc {
+            if v.len() >= 2 && v.iter().all(|s| *s == v[0]) {
+                out.class("bc:Individual/all-rows-equal");
+            }
+        }
         out.class(match self.n {
             3 => "n:3",
             4 => "n:4",
@@ -376,6 +417,11 @@ impl SplineCase {
             }
             if l > 0 && d == self.lane_data(0) {
                 out.class("lane:duplicate-of-lane-0");
+            }
+            if l == 1 {
+                if let Some(col) = crate::gen1d::broadcastable(&self.data, self.n, self.lanes) {
+                    out.class(if crate::common::splitmix(col[0].to_bits()) & 1 == 0 { "data:broadcast-view" } else { "data:equal-lanes" });
+                }
             }
         }
         if !self.bc.is_periodic() {
